@@ -176,7 +176,18 @@ let handle = function
     (match root_bval bs with
      | None -> "rc=BUF"
      | Some _ -> "rc=0 back=" ^ (match binn_decode bs with Some x -> dumps x | None -> "ERR"))
-  | ["ptr"; ph] -> ptr_str (bytes_of_hex ph)
+  | ["ptr"; ph] ->
+    let path = bytes_of_hex ph in
+    ptr_str path ^ (match ptr_parse3 path with
+      | POk ss ->
+        let t = ptr_serialize ss in
+        " ser=0:" ^ hex_of_bytes t ^ " again=" ^
+        (match ptr_parse3 t with POk ss2 -> if ss2 = ss then "same" else "other" | _ -> "PTR")
+      | _ -> "")
+  | ["pcmp"; h1; h2] ->
+    (match ptr_cmp (bytes_of_hex h1) (bytes_of_hex h2) with
+     | None -> "c=NA"
+     | Some z -> "c=" ^ string_of_int (sign_of_z z))
   | [] -> ""
   | l -> "?" ^ String.concat " " l
 let () = main_loop handle
